@@ -152,44 +152,42 @@ theorem mem_acAbs (lv : View) (rows : List Ver) (h : AcTyped rows) (a : AcR) :
     obtain ⟨a', ha', e'⟩ := List.mem_map.mp this
     rw [← AcR.vals_inj a' a e']; exact ha'
 
-open Ledger.Generated.WriteSql in
-/-- **`UpsertAccounts`** (all dates given) on ANY `accounts` table satisfying the storage invariant, for ANY batch with distinct
-    addresses: in the rows the transaction sees afterwards, every account of the ledger that a batch row `d` touches
-    (`updCond`: lower first usage, or metadata not contained) is `updRow a d`; every batch row without an account is inserted as
-    `insRow l d`; all other rows (other ledgers, untouched accounts) are unchanged. -/
-theorem upsertAccounts_sem (k : Nat) (env : Env) (b l : String) (id : Nat) (trigs : List TriggerDef) (nr : Nat) (rows : List Ver)
-    (s : St) (hst : UpsertState s b trigs nr rows) (henv : env.ctes = [])
-    (pm : List (AccountRow × DbR)) (hlits : ∀ x ∈ pm, DbLit s.w.types x.1 x.2) (hnd : ((pm.map (·.2)).map (·.address)).Nodup) :
-    ∃ (res : DmlResult) (rows' : List Ver) (n' : Nat),
-      ((P.upsertAccounts b l id (pm.map (·.1))).mapM (runStmt (k + 19) env)).exec s =
-        (.ok [res], s.withTable ((acT b trigs (nr + n')).withRows rows')) ∧
-      (acAbs (latestView s.w s.xid) rows').Perm
-        (((pm.map (·.2)).filter (fun d => !hasAccount l (acAbs (latestView s.w s.xid) rows) d.address)).map (insRow l) ++
-          (acAbs (latestView s.w s.xid) rows).map (updOf l (pm.map (·.2)))) ∧
-      AcInv (latestView s.w s.xid) (nr + n') rows' := by
-  obtain ⟨res, hexec⟩ := exec_runStmt_upsertAccounts k env b l id trigs nr rows s hst henv pm hlits hnd
-  have htb := hst.tbl
+
+/-- the batch rows that get inserted, in terms of the typed view -/
+theorem filter_exAddrs_eq (b l : String) (trigs : List TriggerDef) (nr : Nat) (rows : List Ver) (s : St)
+    (htb : AcTblState s b trigs nr rows) (ds : List DbR) :
+    ds.filter (fun d => !(exAddrs b l trigs nr rows (cv s) ds).contains d.address) =
+      ds.filter (fun d => !hasAccount l (acAbs (latestView s.w s.xid) rows) d.address) := by
+  apply List.filter_congr
+  intro d hd
+  congr 1
+  apply Bool.eq_iff_iff.mpr
+  rw [List.contains_iff_mem, mem_exAddrs b l trigs nr rows (cv s) ds htb.inv.typed d.address]
+  simp only [hasAccount, List.any_eq_true, Bool.and_eq_true, decide_eq_true_eq]
+  constructor
+  · rintro ⟨r, hr, hv, a, ha, hadr, hl, _⟩
+    refine ⟨a, (mem_acAbs _ rows htb.inv.typed a).mpr ⟨r, hr, ?_, ha⟩, hl, hadr⟩
+    rw [← visible_cv_latest s htb.tx rows htb.fresh r hr]; exact hv
+  · rintro ⟨a, ha, hl, hadr⟩
+    obtain ⟨r, hr, hv, e⟩ := (mem_acAbs _ rows htb.inv.typed a).mp ha
+    refine ⟨r, hr, ?_, a, e, hadr, hl, d, hd, rfl⟩
+    rw [visible_cv_latest s htb.tx rows htb.fresh r hr]; exact hv
+
+/-- the rows `UpsertAccounts` leaves in `accounts`, in terms of the typed view: new rows for the batch addresses without account of the
+    ledger, `updOf` applied to the existing rows; the storage invariant holds again -/
+theorem upsertAccounts_rows_sem (b l : String) (trigs : List TriggerDef) (nr : Nat) (rows : List Ver) (s : St)
+    (htb : AcTblState s b trigs nr rows) (ds : List DbR) (hnd : (ds.map (·.address)).Nodup) :
+    (acAbs (latestView s.w s.xid) (acInsRows s.xid s.cid l nr (acUpdRows (latestView s.w s.xid) s.xid s.cid l ds rows)
+        (ds.filter (fun d => !(exAddrs b l trigs nr rows (cv s) ds).contains d.address)))).Perm
+      ((ds.filter (fun d => !hasAccount l (acAbs (latestView s.w s.xid) rows) d.address)).map (insRow l) ++
+        (acAbs (latestView s.w s.xid) rows).map (updOf l ds)) ∧
+    AcInv (latestView s.w s.xid) (nr + (ds.filter (fun d => !(exAddrs b l trigs nr rows (cv s) ds).contains d.address)).length)
+      (acInsRows s.xid s.cid l nr (acUpdRows (latestView s.w s.xid) s.xid s.cid l ds rows)
+        (ds.filter (fun d => !(exAddrs b l trigs nr rows (cv s) ds).contains d.address))) := by
   have hx := htb.tx.xid
   have hc := htb.tx.cid
-  generalize hds : pm.map (·.2) = ds at *
-  -- the filter, in terms of the typed view
-  have hfilt : ds.filter (fun d => !(exAddrs b l trigs nr rows (cv s) ds).contains d.address) =
-      ds.filter (fun d => !hasAccount l (acAbs (latestView s.w s.xid) rows) d.address) := by
-    apply List.filter_congr
-    intro d hd
-    congr 1
-    apply Bool.eq_iff_iff.mpr
-    rw [List.contains_iff_mem, mem_exAddrs b l trigs nr rows (cv s) ds htb.inv.typed d.address]
-    simp only [hasAccount, List.any_eq_true, Bool.and_eq_true, decide_eq_true_eq]
-    constructor
-    · rintro ⟨r, hr, hv, a, ha, hadr, hl, _⟩
-      refine ⟨a, (mem_acAbs _ rows htb.inv.typed a).mpr ⟨r, hr, ?_, ha⟩, hl, hadr⟩
-      rw [← visible_cv_latest s htb.tx rows htb.fresh r hr]; exact hv
-    · rintro ⟨a, ha, hl, hadr⟩
-      obtain ⟨r, hr, hv, e⟩ := (mem_acAbs _ rows htb.inv.typed a).mp ha
-      refine ⟨r, hr, ?_, a, e, hadr, hl, d, hd, rfl⟩
-      rw [visible_cv_latest s htb.tx rows htb.fresh r hr]; exact hv
-  rw [hfilt] at hexec
+  have hfilt := filter_exAddrs_eq b l trigs nr rows s htb ds
+  rw [hfilt]
   have hinv3 := AcInv_acUpdRows b trigs nr s.w s.xid s.cid hx hc l ds rows htb.inv
   have hperm3 := acAbs_acUpdRows s.w s.xid s.cid hx hc l ds nr rows htb.inv
   have hno : ∀ d ∈ ds.filter (fun d => !hasAccount l (acAbs (latestView s.w s.xid) rows) d.address),
@@ -209,8 +207,27 @@ theorem upsertAccounts_sem (k : Nat) (env : Env) (b l : String) (id : Nat) (trig
     cases hf
   obtain ⟨h1, h2⟩ := acInsRows_props s.w s.xid s.cid hx hc l (ds.filter (fun d => !hasAccount l (acAbs (latestView s.w s.xid) rows) d.address)) nr _
     hinv3 ((List.filter_sublist.map _).nodup hnd) hno
-  refine ⟨res, _, _, hexec, ?_, h1⟩
+  refine ⟨?_, h1⟩
   rw [h2]
   exact List.Perm.append (List.reverse_perm _) hperm3
+
+open Ledger.Generated.WriteSql in
+/-- **`UpsertAccounts`** (all dates given) on ANY `accounts` table satisfying the storage invariant, for ANY batch with distinct
+    addresses: in the rows the transaction sees afterwards, every account of the ledger that a batch row `d` touches
+    (`updCond`: lower first usage, or metadata not contained) is `updRow a d`; every batch row without an account is inserted as
+    `insRow l d`; all other rows (other ledgers, untouched accounts) are unchanged. -/
+theorem upsertAccounts_sem (k : Nat) (env : Env) (b l : String) (id : Nat) (trigs : List TriggerDef) (nr : Nat) (rows : List Ver)
+    (s : St) (hst : UpsertState s b trigs nr rows) (henv : env.ctes = [])
+    (pm : List (AccountRow × DbR)) (hlits : ∀ x ∈ pm, DbLit s.w.types x.1 x.2) (hnd : ((pm.map (·.2)).map (·.address)).Nodup) :
+    ∃ (res : DmlResult) (rows' : List Ver) (n' : Nat),
+      ((P.upsertAccounts b l id (pm.map (·.1))).mapM (runStmt (k + 19) env)).exec s =
+        (.ok [res], s.withTable ((acT b trigs (nr + n')).withRows rows')) ∧
+      (acAbs (latestView s.w s.xid) rows').Perm
+        (((pm.map (·.2)).filter (fun d => !hasAccount l (acAbs (latestView s.w s.xid) rows) d.address)).map (insRow l) ++
+          (acAbs (latestView s.w s.xid) rows).map (updOf l (pm.map (·.2)))) ∧
+      AcInv (latestView s.w s.xid) (nr + n') rows' := by
+  obtain ⟨res, hexec⟩ := exec_runStmt_upsertAccounts k env b l id trigs nr rows s hst henv pm hlits hnd
+  obtain ⟨h1, h2⟩ := upsertAccounts_rows_sem b l trigs nr rows s hst.tbl (pm.map (·.2)) hnd
+  exact ⟨res, _, _, hexec, h1, h2⟩
 
 end Ledger.Sql
